@@ -527,8 +527,16 @@ let is_hex_token (t : string) =
   String.length t >= 1 && t.[0] = 'x' && (String.length t) mod 2 = 1 &&
   (let ok = ref true in String.iteri (fun i ch -> if i > 0 && not ((ch >= '0' && ch <= '9') || (ch >= 'a' && ch <= 'f')) then ok := false) t; !ok)
 
+let trim_json (t : string) : string =
+  (* tokens inside the JSON replay files ./check writes may carry the quotes / commas of the enclosing string *)
+  let n = String.length t in
+  let a = ref 0 and b = ref n in
+  while !a < !b && (t.[!a] = '"') do incr a done;
+  while !b > !a && (t.[!b - 1] = '"' || t.[!b - 1] = ',') do decr b done;
+  String.sub t !a (!b - !a)
+
 let parse_line (line : string) : ccase list =
-  let toks = split_ws line in
+  let toks = L.filter (fun t -> t <> "") (L.map trim_json (split_ws line)) in
   let decs = ref [] and valids = ref [] in
   let rec scan = function
     | "DEC" :: v :: mx :: rest when (v = "5" || v = "311") && (try ignore (int_of_string mx); true with _ -> false) ->
